@@ -760,7 +760,9 @@ pub fn batch_main(prop: &'static dyn Prop, opts: BatchOpts) -> i32 {
                 "a clean batch is evidence, not proof: schedules/histories/configurations are sampled"
             ],
         });
-        let p = verif_root().join("evidence").join(format!("{}.json", prop.id()));
+        // a property served by both engines writes two parts that ./check merges
+        let suffix = std::env::var("VERIF_EVIDENCE_SUFFIX").unwrap_or_default();
+        let p = verif_root().join("evidence").join(format!("{}{}.json", prop.id(), suffix));
         let _ = std::fs::create_dir_all(p.parent().unwrap());
         std::fs::write(&p, serde_json::to_vec_pretty(&ev).unwrap()).expect("write evidence");
     }
